@@ -28,16 +28,23 @@ ASSUME = ['TLC results are exhaustive only within the stated constants (<= 4 nod
           'back (checked: machinery failure otherwise)',
           'transaction, persistent, zodbpickle trusted as installed']
 
-INVARIANTS = ['TypeOK', 'ExtractExact', 'NoDanglingStrong', 'NoDanglingWeak', 'RoundTrip', 'PackKeepsReachable']
-PROPERTIES = ['StoredIffReachableOrAdded', 'CommitTouchesOnlyClosure', 'OnlyCommitAndPackStore']
+INVARIANTS = ['TypeOK', 'ExtractExact', 'NoDanglingStrong', 'NoDanglingWeak', 'RoundTrip', 'PackKeepsReachable',
+              'PresentClassesLoad', 'AllStoredLoad']
+PROPERTIES = ['StoredIffReachableOrAdded', 'CommitTouchesOnlyClosure', 'OnlyCommitAndPackStore', 'TouchKeepsRecords']
 ACTIONS = ('AddEdge', 'RemoveEdge', 'ExplicitAdd', 'Commit', 'LoadElsewhere', 'Pack',
-           'MinimizeAllB', 'MinimizeSomeB', 'AbortB', 'CloseB', 'ResetCaches')
+           'MinimizeAllB', 'MinimizeSomeB', 'AbortB', 'CloseB', 'ResetCaches', 'Savepoint', 'Rollback', 'TouchElsewhere')
+# deviation constants: TRUE = the code as it is (what every conformance run uses)
+DEVIATIONS = ('SavepointOrphans', 'Py2Remap', 'BrokenContainerUnloadable', 'BrokenReduceLosesArgs')
 FORMATS = ('oc', 'o', 'w', 'wd', 'm', 'n')
 
 
 def consts(NNode=3, FNodes=(100,), Holders=('direct', 'list'), KindSets='KS_Rot0', MaxEdges=2, MaxOps=5,
-           WeakAdds=True, NCand=1, CandSize=1, Lifecycle=False):
-    return {'NNode': NNode, 'FNodes': '{' + ', '.join(str(f) for f in FNodes) + '}',
+           WeakAdds=True, NCand=1, CandSize=1, Lifecycle=False, Savepoints=False, MaxSp=2, Touches=False,
+           repaired=()):
+    def b(x):
+        return 'TRUE' if x else 'FALSE'
+    dev = {d: b(d not in repaired) for d in DEVIATIONS}
+    return {**dev, 'Savepoints': b(Savepoints), 'MaxSp': MaxSp, 'Touches': b(Touches), 'NNode': NNode, 'FNodes': '{' + ', '.join(str(f) for f in FNodes) + '}',
             'Holders': '{' + ', '.join('"%s"' % h for h in Holders) + '}', 'KindSets': '<- ' + KindSets,
             'MaxEdges': MaxEdges, 'MaxOps': MaxOps, 'WeakAdds': 'TRUE' if WeakAdds else 'FALSE',
             'NCand': NCand, 'CandSize': CandSize, 'Lifecycle': 'TRUE' if Lifecycle else 'FALSE'}
@@ -103,9 +110,9 @@ class Tally:
             if r['new_stored'] and len(self.samples) < 6 and sum(1 for x in self.samples if x[0] == mode) < 2:
                 self.samples.append([mode, '%s/%s' % (r['storage'], r['pattern'])] + r['sig'][:20])
             for sm in r.get('soft', ()):
-                if not self._first({'action': 'LoadElsewhere', 'what': sm['what'], 'item': sm['item']}):
+                if not self._first({'action': sm['action'], 'what': sm['what'], 'item': sm['item']}):
                     continue
-                ctx.violation({'action': 'LoadElsewhere', 'what': sm['what'], 'item': sm['item']},
+                ctx.violation({'action': sm['action'], 'what': sm['what'], 'item': sm['item']},
                               '%s: %s storage, oid pattern %s, behaviour %s: %s' % (
                                   mode, r['storage'], r['pattern'], ' '.join(r['sig'][:16]), sm['detail']),
                               replay={'mode': mode, 'storage': r['storage'], 'pattern': r['pattern'], 'opts': r['opts'],
@@ -220,6 +227,48 @@ def deviation_witness(ctx):
     return 'present'
 
 
+EXHIBITS = [
+    # (name, constants, cfg kw, violated property, signature the replay must establish)
+    ('orphan-after-savepoint',
+     dict(NNode=2, FNodes=(), Holders=('direct',), KindSets='KS_Plain', MaxEdges=1, MaxOps=4, Savepoints=True),
+     dict(properties=['StoredIffReachableOrAdded']), 'StoredIffReachableOrAdded',
+     ('Commit', 'stored-iff', 'orphan-after-savepoint')),
+    ('py2-module-name', dict(NNode=2, FNodes=(), Holders=('direct',), KindSets='KS_Py2', MaxEdges=1, MaxOps=3),
+     dict(invariants=['LoadedClassesArePresent']), 'LoadedClassesArePresent',
+     ('LoadElsewhere', 'class', 'py2-module-name-remapped')),
+    ('missing-container-class', dict(NNode=2, FNodes=(), Holders=('glist', 'gdict'), KindSets='KS_Plain', MaxEdges=1, MaxOps=3),
+     dict(invariants=['LoadedAllLoad']), 'LoadedAllLoad',
+     ('LoadElsewhere', 'load', 'missing-container-class-unloadable')),
+    ('missing-class-reduce-args', dict(NNode=2, FNodes=(), Holders=('rvalue',), KindSets='KS_Plain', MaxEdges=1, MaxOps=3,
+                                       Touches=True),
+     dict(properties=['TouchKeepsRecords']), 'TouchKeepsRecords',
+     ('TouchElsewhere', 'record', 'missing-class-reduce-args-rewritten')),
+]
+
+
+def exhibits(ctx, tally):
+    """For every deviation constant: with the constant at the code's behaviour TLC exhibits the violated property;
+    the counterexample, replayed on the code, must conform step by step - which establishes the violation on the
+    code (reported by the replay's property monitor under a signature of its own)."""
+    out = {}
+    for name, c, kw, prop, want in EXHIBITS:
+        cfg = _cfg(ctx, 'exhibit-' + name, consts(**c), view='View', **kw)
+        r = ctx.model_check('MCZGraph', cfg, name='exhibit-' + name, expect_violation=prop, timeout=600)
+        steps = [dict(s) for s in r.trace]
+        res = _replay_job((steps, 'mapping', 'seq', (), os.path.join(ctx.scratch, 'exhibit-' + name), {}))
+        res['source'] = None
+        got = {(sm['action'], sm['what'], sm['item']) for sm in res.get('soft', ())}
+        tally.add(ctx, [res], 'exhibit/' + name)
+        if res['mismatch']:
+            out[name] = 'diverges from the specification of the code as it is'
+        elif want in got:
+            out[name] = 'established on the code: ' + ' '.join(res['sig'])
+        else:
+            out[name] = 'not observed on the code'
+            ctx.notes.append('exhibit %s: the replay conforms but the monitor did not fire' % name)
+    return out
+
+
 def run(ctx):
     q = ctx.quick
     tally = Tally()
@@ -237,6 +286,12 @@ def run(ctx):
     ctx.model_check('MCZGraph', _cfg(ctx, 'lifecycle-2n', lc, invariants=['TypeOK', 'BOK', 'RoundTrip'],
                                      properties=['SameUnlessReset'], view='View'), name='lifecycle-2n', timeout=900)
     witness = deviation_witness(ctx)
+    # savepoints: the repaired design (a commit copies only justified records) has every property
+    sp = consts(NNode=3, FNodes=(), Holders=('direct',), KindSets='KS_Plain', MaxEdges=2, MaxOps=4 if q else 6,
+                Savepoints=True, repaired=DEVIATIONS)
+    ctx.model_check('MCZGraph', _cfg(ctx, 'savepoints-3n', sp, invariants=INVARIANTS, view='View',
+                                     properties=PROPERTIES + ['SavepointsInvisible']), name='savepoints-3n', timeout=900)
+    shown = exhibits(ctx, tally)
     # 2. all small graphs
     ncases = {}
     # node kinds of the quick configuration: newargs (root), gone, gonenew; plain nodes are in the programs
@@ -251,8 +306,9 @@ def run(ctx):
     for name, c, fn in gcfgs:
         ncases[name] = graphs(ctx, tally, name, c, fn, both=not q and name == 'graphs-rot1')
     # 3. mutation programs of a larger configuration
-    big = consts(NNode=4, FNodes=(100, 101), Holders=('direct', 'list', 'dict', 'deep'), KindSets='KS_RootPlain',
-                 MaxEdges=6, MaxOps=14, NCand=40, CandSize=6, Lifecycle=True)
+    big = consts(NNode=4, FNodes=(100, 101), Holders=('direct', 'list', 'dict', 'deep', 'glist', 'gdict', 'rvalue'),
+                 KindSets='KS_RootPlain', MaxEdges=6, MaxOps=14, NCand=40, CandSize=6, Lifecycle=True, Savepoints=True,
+                 Touches=True)
     nprog = programs(ctx, tally, 'programs-4n', big, (100, 101), num=1500 if q else 12000, depth=18)
     # vacuity
     missing = [a for a in ACTIONS if not tally.actions.get(a)] + [f for f in FORMATS if not tally.formats.get(f)]
@@ -299,6 +355,7 @@ def run(ctx):
         'new_objects_stored': tally.new_stored,
         'stored_through_weak_reference_only': tally.weak_added,
         'weak_adds_deviation_in_code': witness,
+        'deviations_exhibited': shown,
         'per_storage': tally.by_storage,
         'per_oid_pattern': tally.by_pattern,
         'samples': tally.samples or [['(no sample)']],
